@@ -403,6 +403,35 @@ fn nested_module_probe(rep: &mut Report) {
     }
 }
 
+
+/// Only `#[diplomat::bridge]` modules are compiled by the proc macro, so only their methods are exported.  A module
+/// that carries another tool's attribute ending in `bridge` (`#[cxx::bridge]`, `#[uniffi::bridge(..)]`) exports
+/// nothing through Diplomat, and no backend may refer to symbols for its items.
+fn foreign_bridge_probe(rep: &mut Report) {
+    let src = "#[diplomat::bridge]\nmod ffi {\n    #[diplomat::opaque]\n    pub struct Real(u8);\n    impl Real {\n        pub fn get(&self) -> u8 { self.0 }\n    }\n}\n#[cxx::bridge]\nmod cxxside {\n    pub struct Stats { pub a: u8 }\n    pub enum StatMode { A, B }\n    impl Stats {\n        pub fn total(self) -> u8 { 0 }\n        pub fn zero() -> Stats { Stats { a: 0 } }\n    }\n}\n#[other::tool::bridge(option)]\nmod third {\n    #[diplomat::opaque]\n    pub struct Foreign(u8);\n    impl Foreign {\n        pub fn peek(&self) -> u8 { 0 }\n    }\n}\n";
+    let foreign = ["Stats_total", "Stats_zero", "Foreign_peek", "Foreign_destroy", "StatMode", "Stats", "Foreign"];
+    for t in tool::BACKENDS {
+        let o = tool::run_backend(src, t);
+        rep.oracle_runs += 1;
+        rep.count("probe:foreign-bridge");
+        if !o.ok() {
+            rep.oracle_fail(&format!("(c06 probe foreign-bridge {t})"), "a crate with another tool's `bridge` module is not generated", json!({"status": o.status()}));
+            continue;
+        }
+        if t != "demo_gen" && !o.files.values().any(|v| contains_word(v, "Real_get")) {
+            rep.oracle_fail(&format!("(c06 probe foreign-bridge {t})"), "the Diplomat bridge's own method is not referred to", json!({"files": o.files.keys().collect::<Vec<_>>()}));
+        }
+        for (name, text) in &o.files {
+            for w in foreign {
+                if contains_word(text, w) || name.contains(w) {
+                    rep.oracle_fail(&format!("(c06 probe foreign-bridge {t})"), "a backend refers to items of a module the proc macro does not compile (no such symbol is exported)", json!({"backend": t, "file": name, "name": w, "source": src}));
+                    break;
+                }
+            }
+        }
+    }
+}
+
 pub fn main(args: &[String]) {
     let a = util::parse_args(args);
     let mut rep = Report::new("C06");
@@ -506,6 +535,7 @@ pub fn main(args: &[String]) {
     let _ = (Meta::Disable, NAMES, validator as fn(&str) -> _);
     // the repository's own bridges: what the bindings refer to is what the built libraries export
     crate::repo_tests::symbols(&mut rep);
+    foreign_bridge_probe(&mut rep);
     crate::tool::alias_probe(&mut rep, "C06", crate::tool::ALIAS_SRC);
     rep.print();
 }
